@@ -577,12 +577,10 @@ fn finish(
     if pubv.len() != circuit.public_flat_len {
         viol.push(("length-mismatch:public".into(), json!({"packed": pubv.len(), "public_flat_len": circuit.public_flat_len})));
     }
+    // (since /repo fc0321f also for malformed sibling counts: allocation and packing both read
+    // `sibling_values.len()`)
     if privv.len() != circuit.private_flat_len {
-        if wf {
-            viol.push(("length-mismatch:private".into(), json!({"packed": privv.len(), "private_flat_len": circuit.private_flat_len})));
-        } else {
-            notes.push("malformed.private-length-differs".into());
-        }
+        viol.push(("length-mismatch:private".into(), json!({"packed": privv.len(), "private_flat_len": circuit.private_flat_len, "wf": wf})));
     }
     for (e, v, _) in &inputs {
         if !label_of.contains_key(e) {
@@ -596,13 +594,11 @@ fn finish(
     let refused = r1.is_err() || r2.is_err();
     if refused {
         let msg = format!("{:?} {:?}", r1.err(), r2.err()).chars().take(160).collect::<String>();
-        if wf {
-            viol.push(("packed-vectors-refused".into(), json!(msg)));
-        } else {
-            notes.push("malformed.rejected-by-runner".into());
-        }
-    } else if case.expect == "rejected" {
-        viol.push(("malformed-siblings-accepted".into(), json!("runner accepted the packed vectors of a malformed proof")));
+        // a malformed sibling count is the verifier-circuit builder's business (`sibcheck` leg), not
+        // the runner's: the packed vectors have the allocated lengths
+        viol.push((if wf { "packed-vectors-refused" } else { "packed-vectors-refused:malformed-siblings" }.into(), json!(msg)));
+    } else if !wf {
+        notes.push("malformed-siblings.vectors-accepted".into());
     }
     if !refused {
         match runner.run() {
